@@ -268,8 +268,9 @@ def gen_C17(seed, tier):
             c.spl_new(d, o, 1000 + d, coefs)
         c.meta['pts'] = pts
         c.meta['wins'] = wins
-        for deg in range(0, 4):
-            w = [props.dyadic_coef(rng) for _ in range(deg + 1)]
+        for deg in list(range(0, 4)) + [4 + r % 3, 4 + (r + 1) % 3]:
+            # degrees 0..3 with generic coefficients; degrees 4..6 as a generic polynomial or as the single power x^d
+            w = [props.dyadic_coef(rng) for _ in range(deg + 1)] if (deg < 4 or (r + deg) % 2) else [Fr(0)] * deg + [Fr(1)]
             if w[-1] == 0:
                 w[-1] = Fr(1)
             need = (oa + ob + deg + 2) // 2          # smallest n with 2n-1 >= oa+ob+deg
@@ -321,7 +322,9 @@ def stage_fp_quad(pid, seed, tier, workdir):
                     continue
                 val = hex_to_fraction(toks[1])
                 ai = toks.index("ABSC")
-                xs = [hex_to_fraction(t) for t in toks[ai + 2:]]
+                nx = int(toks[ai + 1])
+                xs = [hex_to_fraction(t) for t in toks[ai + 2:ai + 2 + nx]]
+                analytic = hex_to_fraction(toks[toks.index("ANALYTIC") + 1]) if "ANALYTIC" in toks else None
                 # coverage: exactly nq abscissae strictly inside each common interval, none elsewhere
                 cnt = {kk: 0 for kk in common}
                 stray = 0
@@ -348,6 +351,10 @@ def stage_fp_quad(pid, seed, tier, workdir):
                     worst = max(worst, ratio)
                     if ratio > 2 ** 20:
                         bad(f"|numerical - analytic| = {float(err):.3e} exceeds 2^20 eps S although 2n-1 >= order1+order2+d (ratio {float(ratio):.3e})")
+                    elif analytic is None or abs(val - analytic) > 2 ** 21 * eps * mm:
+                        # the relation the property states is between the library's two routes
+                        bad(f"numerical integral {float(val):.17g} and the library's analytic bilinear form {None if analytic is None else float(analytic):.17g} "
+                            f"differ by more than 2^21 eps S although 2n-1 >= order1+order2+d")
                 else:
                     below_side += 1
     res["notes"] = {"worst_error_in_units_of_eps_times_S": float(worst), "cases_with_exactness_bound_met": exact_side,
